@@ -31,27 +31,27 @@ type Violation struct {
 
 // Report is what one shard writes to $VERIF_OUT.
 type Report struct {
-	Property    string            `json:"property"`
-	Shard       int               `json:"shard"`
-	NShards     int               `json:"nshards"`
-	Tier        string            `json:"tier"`
-	Evaluations int64             `json:"evaluations"`
-	Nontrivial  int64             `json:"distinct_nontrivial"`
-	States      int64             `json:"states"`
-	Transitions int64             `json:"transitions"`
-	Traces      int64             `json:"traces_validated_against_impl"`
-	Outcomes    int64             `json:"distinct_outcomes"`
-	Rule        string            `json:"rule"`
-	Samples     []any             `json:"samples"`
-	Exhaustive  bool              `json:"exhaustive"`
-	Caps        []string          `json:"caps"`
-	Counters    map[string]int64  `json:"counters"`
-	Required    []string          `json:"required_counters"`
-	Violations  []Violation       `json:"violations"`
-	NViolations int64             `json:"n_violations"`
-	Extra       map[string]any    `json:"extra"`
-	HarnessErr  string            `json:"harness_error"`
-	WallS       float64           `json:"wall_s"`
+	Property    string           `json:"property"`
+	Shard       int              `json:"shard"`
+	NShards     int              `json:"nshards"`
+	Tier        string           `json:"tier"`
+	Evaluations int64            `json:"evaluations"`
+	Nontrivial  int64            `json:"distinct_nontrivial"`
+	States      int64            `json:"states"`
+	Transitions int64            `json:"transitions"`
+	Traces      int64            `json:"traces_validated_against_impl"`
+	Outcomes    int64            `json:"distinct_outcomes"`
+	Rule        string           `json:"rule"`
+	Samples     []any            `json:"samples"`
+	Exhaustive  bool             `json:"exhaustive"`
+	Caps        []string         `json:"caps"`
+	Counters    map[string]int64 `json:"counters"`
+	Required    []string         `json:"required_counters"`
+	Violations  []Violation      `json:"violations"`
+	NViolations int64            `json:"n_violations"`
+	Extra       map[string]any   `json:"extra"`
+	HarnessErr  string           `json:"harness_error"`
+	WallS       float64          `json:"wall_s"`
 	outcomes    map[string]struct{}
 	sigIndex    map[string]int
 }
